@@ -89,15 +89,26 @@ neither a Tuple nor a Slice and is a non-Ellipsis constant (a `Literal`) or itse
 String literals are rendered with their `repr` (the code uses `'{}'.format(value)`): this can differ
 from the code only *inside* brackets, which no user of `qnStr` looks at (prefix tests `ag__.`,
 `<scope>.` and equality with bracket-free names). -/
+inductive SliceKind where
+  | noQn                      -- Tuple / Slice / Ellipsis: the subscript gets no QN
+  | lit (repr : String)       -- a constant: `QN(Literal(value))`
+  | sub                       -- anything else: the QN of the slice expression, if it has one
+  deriving Repr, DecidableEq
+
+def sliceKind : Expr → SliceKind
+  | .seq _ .tuple _ _ => .noQn
+  | .other _ "Slice" _ _ => .noQn
+  | .const _ k r => if k == "ellipsis" then .noQn else .lit r
+  | _ => .sub
+
 def qnStr : Expr → Option String
   | .name _ s _ => some s
   | .attr _ v a _ => (qnStr v).map fun b => b ++ "." ++ a
   | .subscript _ v s _ =>
-      match s with
-      | .seq _ .tuple _ _ => none
-      | .other _ "Slice" _ _ => none
-      | .const _ k r => if k == "ellipsis" then none else (qnStr v).map fun b => b ++ "[" ++ r ++ "]"
-      | s' => match qnStr s', qnStr v with
+      match sliceKind s with
+      | .noQn => none
+      | .lit r => (qnStr v).map fun b => b ++ "[" ++ r ++ "]"
+      | .sub => match qnStr s, qnStr v with
           | some x, some b => some (b ++ "[" ++ x ++ "]")
           | _, _ => none
   | _ => none
